@@ -1,9 +1,15 @@
 #!/bin/sh
-# Runs seeded/detect.sh for the listed "<seed-name>:<PROP>" pairs one after another (each patches /repo!).
+# Runs seeded/detect.sh for the listed "<seed-name>:<PROP>[:<only-filter>]" items one after another (each patches
+# /repo!). With an only-filter just the named harnesses of the property's quick check are run (targeted run).
 cd /verif
-for pair in "$@"; do
-  name=${pair%%:*}; prop=${pair##*:}
-  echo "#### $name ($prop)" >> /tmp/detect_all.log
-  seeded/detect.sh "$name" "$prop" >> /tmp/detect_all.log 2>&1
+for item in "$@"; do
+  name=$(echo "$item" | cut -d: -f1); prop=$(echo "$item" | cut -d: -f2); only=$(echo "$item" | cut -s -d: -f3)
+  echo "#### $name ($prop) ${only:+only=$only}" >> /tmp/detect_all.log
+  if [ -n "$only" ]; then
+    seeded/detect.sh "$name" "$prop" --only "$only" >> /tmp/detect_all.log 2>&1
+    echo "targeted run: --only $only" >> seeded/$name/detect.log
+  else
+    seeded/detect.sh "$name" "$prop" >> /tmp/detect_all.log 2>&1
+  fi
 done
 echo "DETECT DONE" >> /tmp/detect_all.log
